@@ -38,6 +38,7 @@ func init() {
 	families["group11"] = famGroup11
 	families["pg"] = famPG
 	families["ctx"] = famCtx
+	families["dt"] = famDT
 }
 
 func mustDoc(text string, useNumber bool) any {
@@ -982,6 +983,60 @@ func famCtx(g *gen, e *emitter, n int) {
 		}
 		for _, p := range flagPaths {
 			emit(p, d)
+		}
+	}
+}
+
+// ---- dt: datetime methods through the executor model (C17): several conversions of the same
+// string in one path (with and without precision), comparisons across kinds, casts, .string()/.type() ----
+func famDT(g *gen, e *emitter, n int) {
+	strs := []string{"2024-01-02", "12:34:56", "12:34:56.789", "12:34:56.789123456", "23:59:59.9999995", "12:34:56+01", "12:34:56.5-08:00", "12:34:56+05:30",
+		"2023-12-31T23:59:59.987654321", "2024-01-02T03:04:05", "2024-01-02 03:04:05", "2024-01-02T03:04:05Z", "2024-01-02T03:04:05+00", "2024-01-02T03:04:05.25+05:30",
+		"2024-01-02T03:04:05-08:00", "2024-03-10T02:30:00", "0001-01-01", "9999-12-31T23:59:59.999999", "00:00:00", "00:00:00.4999", "nope", "2024-02-30", "24:00:00", "1:02:03"}
+	meths := []string{"datetime()", "date()", "time()", "time_tz()", "timestamp()", "timestamp_tz()"}
+	precs := []string{"time(0)", "time(1)", "time(3)", "time(6)", "time(7)", "time_tz(0)", "time_tz(2)", "timestamp(0)", "timestamp(2)", "timestamp(6)", "timestamp_tz(0)", "timestamp_tz(3)", "timestamp_tz(9)"}
+	var paths []string
+	for _, m := range append(append([]string{}, meths...), precs...) {
+		paths = append(paths, "$."+m, "$."+m+".string()", "$."+m+".type()", "strict $."+m)
+	}
+	for _, m := range meths {
+		for _, p := range precs {
+			base := strings.Split(p, "(")[0]
+			paths = append(paths,
+				"$ ? (@."+m+" == @."+m+")."+p,            // same string converted plainly first, then with a precision
+				"$."+m+" < $."+p, "$."+p+" > $."+m, "$."+m+" == $."+p,
+				"$ ? (@."+base+"() == @."+p+")."+base+"().string()")
+		}
+		for _, m2 := range meths {
+			paths = append(paths, "$[0]."+m+" < $[1]."+m2, "$[0]."+m+" == $[1]."+m2, "$[0]."+m+" >= $[1]."+m2, "$[*] ? (@."+m+" < $[1]."+m2+")")
+		}
+	}
+	paths = append(paths, "$.datetime(\"HH24\")", "$.time(99999999999)", "$[*].datetime().type()", "$[*].datetime() ? (@ < $[0].datetime())", "$.datetime() == 1", "$.datetime().string().datetime() == $.datetime()")
+	tzs := []int{0, 19800, -28800}
+	total := len(paths) * (len(strs) + len(strs)) * 2 * len(tzs)
+	stride := 1
+	if n > 0 && total > n {
+		stride = total / n
+	}
+	idx := g.r.Intn(stride)
+	cnt := 0
+	for _, p := range paths {
+		for i, s := range strs {
+			docs := []any{s, []any{s, strs[(i*7+3)%len(strs)]}}
+			for _, d := range docs {
+				_, isArr := d.([]any)
+				if strings.Contains(p, "$[") != isArr {
+					continue
+				}
+				for _, useTZ := range []bool{false, true} {
+					for _, tz := range tzs {
+						if cnt%stride == idx%stride {
+							e.emit(caseSpec{family: "dt", text: p, doc: d, useTZ: useTZ, tzOff: tz})
+						}
+						cnt++
+					}
+				}
+			}
 		}
 	}
 }
